@@ -166,15 +166,36 @@ def check_c02(ctx):
     core.build_vh(ctx)
     mc = _mc(ctx)
     scn = programs(ctx, 350 if ctx.quick() else 4000)
+    nadded = with_namesake_app(scn)
     events, prints, nev = run_programs(ctx, scn)
     _judge(ctx, "C02", scn, events, prints,
            lambda n: n.startswith(("Missing:", "Spurious:")) or n in ("Rejected", "IllFormedProgram"))
     nk, ns = coverage_counts(scn)
     cov = {"states": mc.distinct, "transitions": mc.generated, "traces_validated_against_impl": len(scn),
            "trace_events": nev, "declarations": sum(len(s["decls"]) for s in scn),
-           "distinct_declaration_kind_x_scope": nk, "distinct_type_shapes": ns,
+           "distinct_declaration_kind_x_scope": nk, "distinct_type_shapes": ns, "programs_given_a_namesake_application": nadded,
            "samples": [{"decls": scn[0]["decls"][:12]}] if scn else []}
     return core.finish(ctx, "model_checking", cov, ASSUME)
+
+
+def with_namesake_app(scn):
+    """Application A has a type named B.  A program that refers to a field of that type (`B.x`) and does not itself declare an
+    application B gets one appended (with a type of its own), so that the resolution of `B.x` is exercised with the
+    namesake application present; the specification judges the extended program like any other."""
+    nopos = {"file": "", "line": 0, "col": 0}
+    n = 0
+    for s in scn:
+        d = s["decls"]
+        refs = [x for x in d if "sh" in x and x["sh"]["p"] == "" and len(x["sh"]["ref"]) > 2 and x["sh"]["ref"][0] == "" and x["sh"]["ref"][1] == "B"]
+        if not refs or any(x.get("k") == "app" and x.get("name") == "B" for x in d):
+            continue
+        d += [{"k": "app", "name": "B", "long": "", "tags": [], "attrs": [], "pos": nopos},
+              {"k": "type", "name": "W", "kind": "tuple", "tags": [], "attrs": [], "pos": nopos},
+              {"k": "field", "name": "y", "sh": {"p": "int", "ref": [], "size": [], "opt": False, "wrap": ""}, "pk": False,
+               "tags": [], "attrs": [], "pos": nopos},
+              {"k": "end"}, {"k": "end"}]
+        n += 1
+    return n
 
 
 def check_c08(ctx):
